@@ -7,6 +7,7 @@ package gocore
 import (
 	"encoding/json"
 	"fmt"
+	"strconv"
 	"strings"
 )
 
@@ -47,6 +48,12 @@ type N struct {
 	From  string          `json:"from"`
 	Ix    int             `json:"ix"`
 	Es    []*N            `json:"es"`
+	Ks    []int           `json:"ks"`  // literal keys of a map literal
+	Src   *N              `json:"src"` // string expression
+	Cs    []int           `json:"cs"`  // character codes of a string literal
+	Lo    int             `json:"lo"`
+	Hi    int             `json:"hi"`
+	VV    string          `json:"vv"` // value variable of a range loop
 }
 
 type Case struct {
@@ -246,6 +253,13 @@ func Expr(e *N) string {
 		return e.F + "(" + strings.Join(as, ", ") + ")"
 	case "clo":
 		return e.cloName() + "()"
+	case "mget":
+		return e.S + "[" + key(e.I) + "]"
+	case "mlen", "slen":
+		return "len(" + e.S + ")"
+	case "scmp":
+		op := map[string]string{"lt": "<", "eq": "==", "ne": "!="}[e.Op]
+		return StrExpr(e.L) + " " + op + " " + StrExpr(e.R)
 	case "cmp":
 		op := map[string]string{"lt": "<", "le": "<=", "eq": "==", "ne": "!="}[e.Op]
 		return Expr(e.L) + " " + op + " " + Expr(e.R)
@@ -257,6 +271,31 @@ func Expr(e *N) string {
 		return "!(" + Expr(e.X_()) + ")"
 	}
 	return "/*?" + e.K + "*/"
+}
+
+// StrExpr renders a string expression.
+func StrExpr(e *N) string {
+	switch e.K {
+	case "slit":
+		b := make([]byte, len(e.Cs))
+		for i, c := range e.Cs {
+			b[i] = byte(c)
+		}
+		return strconv.Quote(string(b))
+	case "sv":
+		return e.S
+	case "scat":
+		return "(" + StrExpr(e.L) + " + " + StrExpr(e.R) + ")"
+	}
+	return "/*?" + e.K + "*/"
+}
+
+// key renders a map key: the expression modulo 4.
+func key(i *N) string {
+	if i.K == "lit" {
+		return fmt.Sprint(((i.V() % 4) + 4) % 4)
+	}
+	return "((" + Expr(i) + ")%4+4)%4"
 }
 
 func idx(i *N) string {
@@ -286,6 +325,46 @@ func usesLabel(b []*N, lab string) bool {
 		}
 	}
 	return false
+}
+
+func usesGoto(b []*N, lab string) bool {
+	for _, s := range b {
+		if s.K == "goto" && s.Lab == lab {
+			return true
+		}
+		if s.K == "mkclo" || s.K == "appclo" || s.K == "defer" {
+			continue
+		}
+		for _, sub := range [][]*N{s.Th, s.El, s.Body, s.Dflt} {
+			if usesGoto(sub, lab) {
+				return true
+			}
+		}
+		for _, c := range s.Cases {
+			if usesGoto(c.Body, lab) {
+				return true
+			}
+		}
+	}
+	return false
+}
+
+// scoped gives the abstract label lab a fresh rendered name and returns it with the undo.
+func (r *rend) scoped(lab string) (string, func()) {
+	r.nlab++
+	if r.labs == nil {
+		r.labs = map[string]string{}
+	}
+	old, had := r.labs[lab]
+	name := fmt.Sprintf("%s_%d", lab, r.nlab)
+	r.labs[lab] = name
+	return name, func() {
+		if had {
+			r.labs[lab] = old
+		} else {
+			delete(r.labs, lab)
+		}
+	}
 }
 
 var faults = map[string]string{
@@ -525,6 +604,127 @@ func (r *rend) stmt(s *N) {
 		r.line("} else {")
 		r.line("\tfmt.Println(\"norec\")")
 		r.line("}")
+	case "mkmap":
+		switch s.Form {
+		case "nil":
+			r.line("var %s map[int]int", s.S)
+		case "make":
+			r.line("%s := make(map[int]int)", s.S)
+		default:
+			var kv []string
+			for i, k := range s.Ks {
+				kv = append(kv, fmt.Sprintf("%d: %s", k, Expr(s.Es[i])))
+			}
+			r.line("%s := map[int]int{%s}", s.S, strings.Join(kv, ", "))
+		}
+		r.line("_ = %s", s.S)
+	case "mshare":
+		r.line("%s := %s", s.S, s.From)
+		r.line("_ = %s", s.S)
+	case "mset":
+		if s.Op == "set" {
+			r.line("%s[%s] = %s", s.S, key(s.I), Expr(s.E))
+		} else {
+			r.line("%s[%s] += %s", s.S, key(s.I), Expr(s.E))
+		}
+	case "mdel":
+		r.line("delete(%s, %s)", s.S, key(s.I))
+	case "mok":
+		r.line("if mv, ok := %s[%s]; ok {", s.S, key(s.I))
+		r.line("\tfmt.Println(\"k\", %d, mv)", s.ID)
+		r.line("} else {")
+		r.line("\tfmt.Println(\"k\", %d, -1)", s.ID)
+		r.line("}")
+	case "printm":
+		r.line("fmt.Println(\"m\", len(%s), %s[0], %s[1], %s[2], %s[3])", s.S, s.S, s.S, s.S, s.S)
+	case "msum":
+		r.line("for mk, mv := range %s {", s.S)
+		r.line("\t%s += mk*7 + mv", s.X())
+		r.line("}")
+	case "sdef":
+		r.line("%s := %s", s.S, StrExpr(s.Src))
+		r.line("_ = %s", s.S)
+	case "sasg":
+		if s.Op == "add" {
+			r.line("%s += %s", s.S, StrExpr(s.Src))
+		} else {
+			r.line("%s = %s", s.S, StrExpr(s.Src))
+		}
+	case "sidx":
+		r.line("%s = int(%s[%d])", s.X(), s.S, s.Ix)
+	case "ssub":
+		r.line("%s := %s[%d:%d]", s.S, s.From, s.Lo, s.Hi)
+		r.line("_ = %s", s.S)
+	case "prints":
+		r.line("fmt.Println(\"w\", len(%s), %s+\"|\")", s.S, s.S)
+	case "srng":
+		r.line("for si, sc := range %s {", s.S)
+		r.line("\tfmt.Println(\"r\", si, sc)")
+		r.line("}")
+	case "gscope":
+		used := usesGoto(s.Body, s.Lab)
+		name, restore := "", func() {}
+		if used {
+			name, restore = r.scoped(s.Lab)
+		}
+		r.line("{")
+		r.ind++
+		r.block(s.Body)
+		r.ind--
+		r.line("}")
+		restore()
+		if used {
+			r.sb.WriteString(name + ":\n")
+			r.line("_ = 0")
+		}
+	case "goto":
+		r.line("goto %s", r.lab(s.Lab))
+	case "gloop":
+		name, restore := r.scoped(s.Lab)
+		restore() // nothing inside refers to it
+		r.line("%s := 0", s.X())
+		r.line("_ = %s", s.X())
+		r.sb.WriteString(name + ":\n")
+		r.line("{")
+		r.ind++
+		r.block(s.Body)
+		r.ind--
+		r.line("}")
+		r.line("if %s < %d {", s.X(), s.N_)
+		r.line("\t%s++", s.X())
+		r.line("\tgoto %s", name)
+		r.line("}")
+	case "while":
+		_, restore := r.pushLabel(s)
+		if s.Form == "cond" {
+			r.line("for %s < %d {", s.X(), s.N_)
+			r.ind++
+			r.line("%s++", s.X())
+		} else {
+			r.line("for {")
+			r.ind++
+			r.line("%s++", s.X())
+			r.line("if %s >= %d {", s.X(), s.N_)
+			r.line("\tbreak")
+			r.line("}")
+		}
+		r.block(s.Body)
+		r.ind--
+		r.line("}")
+		restore()
+	case "rngsl", "rngarr":
+		_, restore := r.pushLabel(s)
+		over := s.S
+		if s.K == "rngarr" {
+			over = "arr"
+		}
+		r.line("for %s, %s := range %s {", s.V_(), s.VV, over)
+		r.ind++
+		r.line("_, _ = %s, %s", s.V_(), s.VV)
+		r.block(s.Body)
+		r.ind--
+		r.line("}")
+		restore()
 	case "block":
 		r.line("{")
 		r.ind++
